@@ -359,8 +359,8 @@ def run(ctx, prog, only=None):
             return 'panic ' + p.msg
         if not p.is_ok():
             return None
-        ins = [c for c in p.calls if re.search(r'HashMap<.*>::insert$', c.name)]
-        ck = [c for c in p.calls if re.search(r'HashMap<.*>::contains_key$', c.name)]
+        ins = [c for c in p.calls if re.search(r'HashMap(<.*>)?::insert$', c.name)]
+        ck = [c for c in p.calls if re.search(r'HashMap(<.*>)?::contains_key$', c.name)]
         for c in ins:
             prev = c.ret
             emb = c.argvals[2]
@@ -377,8 +377,16 @@ def run(ctx, prog, only=None):
         for c in ck:
             if not p.took(c.ret, 'false'):
                 return 'document accepted although a service id equals a method id'
+        # every id the loops take out of the document is either recorded in the identifier map or checked against it
+        for nx in [c for c in p.calls if re.search(r'Iterator>::next$', c.name) and p.took(c, 'Some')]:
+            item = ('field', nx.ret, 0, 'Some')
+            used = [c for c in ins + ck if any(is_sub(a, item) for a in c.args)]
+            if not used:
+                others = [c for c in p.calls if re.search(r'HashMap(<.*>)?::', c.name) and any(is_sub(a, item) for a in c.args)]
+                return 'an id taken from the document is only looked up (%s), never recorded: later checks cannot see it' % (
+                    others[0].name.split('::')[-1] if others else 'not used at all')
         return None
-    A.require('check_id_constraints/no-duplicate-embedded-no-alias-no-service-clash', paths, r_gate, replay=REPLAY)
+    A.require('check_id_constraints/no-duplicate-embedded-no-alias-no-service-clash', paths, r_gate, replay={'scenario': 'document_ops', 'cex': {'only': '[gate]'}})
 
 
 def main(ctx):
